@@ -7,6 +7,7 @@ import json, os, re, subprocess, sys, time
 
 ROOT = os.path.dirname(os.path.dirname(os.path.abspath(__file__)))
 TARGETS = {
+    "revert-512c15e": ["C04", "C07"],
     "revert-41c2892": ["C16"],
     "C04-4A": ["C04", "C17"], "C04-4B": ["C04", "C07"], "C07-4A": ["C07", "C05"], "C07-4B": ["C07", "C06"], "C08-4A": ["C08", "C07"], "C08-4B": ["C08", "C06"],
     "C13-4A": ["C13"], "C13-4B": ["C13"], "C20-4A": ["C20"], "C20-4B": ["C20"], "C06-4A": ["C06"], "C06-4B": ["C06"], "C14-4A": ["C14"], "C14-4B": ["C14"],
